@@ -222,7 +222,9 @@ pub fn exempt_spans_out(out: &str, cfg: &Config, _range: Option<Range>) -> Vec<(
         Ok(ast) => {
             let recs = collect(&ast);
             let flags = ignored_flags(&recs);
-            recs.iter().zip(flags).filter(|(_, f)| *f).map(|(r, _)| (r.start, r.end_semi)).collect()
+            // the leading trivia of an ignored node (the directive comment and what surrounds it) is
+            // left as written too: exempt from the end of the previous code token
+            recs.iter().zip(flags).filter(|(_, f)| *f).map(|(r, _)| (prev_code_end(out, r.start), r.end_semi)).collect()
         }
         Err(_) => vec![],
     }
@@ -390,6 +392,6 @@ pub fn observe(src: &str, out: &str, cfg: &Config, range: Option<Range>, case: &
     j["case_markers"] = case.get("markers").cloned().unwrap_or(Value::Null);
     // exempt spans in the output
     let flags = ignored_flags(&out_recs);
-    let exempt: Vec<(usize, usize)> = out_recs.iter().zip(flags).filter(|(_, f)| *f).map(|(r, _)| (r.start, r.end_semi)).collect();
+    let exempt: Vec<(usize, usize)> = out_recs.iter().zip(flags).filter(|(_, f)| *f).map(|(r, _)| (prev_code_end(out, r.start), r.end_semi)).collect();
     StmtObs { json: j, exempt_out: exempt }
 }
